@@ -10,7 +10,7 @@ GRID = [0.0, 0.125, 0.25, 0.5, 1.0, 1.5, 2.0, 3.0, 4.0, 6.0, 8.0]
 PHASES = [0.0, 0.0, 0.5, 1.0, math.pi, -0.75, 7.5, 2 * math.pi, 3.25, -10.0]
 
 
-def gen_channel(rng: random.Random, idx: int, kind=None, addressing=None, eom=None):
+def gen_channel(rng: random.Random, idx: int, kind=None, addressing=None, eom=None, force_bw=False):
     kind = kind or rng.choice(["Rydberg", "Rydberg", "Raman", "Raman"])
     addressing = addressing or rng.choice(["Global", "Local"])
     clock = rng.choice([1, 1, 2, 4, 4, 5, 8])
@@ -19,6 +19,8 @@ def gen_channel(rng: random.Random, idx: int, kind=None, addressing=None, eom=No
     if max_dur is not None and max_dur < min_dur:
         max_dur = 10**8
     bw = rng.choice([None, None, 4.0, 8.0, 40.0, 120.0, 2.5])
+    if (eom or force_bw) and bw is None:
+        bw = rng.choice([4.0, 8.0, 40.0])
     spec = dict(
         id=f"ch{idx}",
         kind=kind,
@@ -53,9 +55,22 @@ def gen_channel(rng: random.Random, idx: int, kind=None, addressing=None, eom=No
     return spec
 
 
-def gen_device(rng: random.Random, xy=False):
+def gen_device(rng: random.Random, xy=False, focus=None):
     n = rng.choice([1, 2, 2, 3, 3, 4])
-    chans = [gen_channel(rng, i) for i in range(n)]
+    if focus == "conflict":
+        n = rng.choice([2, 3, 3, 4])
+    chans = [gen_channel(rng, i, force_bw=(focus == "conflict" and rng.random() < 0.8)) for i in range(n)]
+    if focus == "eom":
+        chans[0] = gen_channel(rng, 0, kind="Rydberg", addressing=rng.choice(["Global", "Global", "Local"]), eom=True)
+    if focus == "local":
+        for i in range(n):
+            if rng.random() < 0.7:
+                chans[i] = gen_channel(rng, i, addressing="Local", force_bw=rng.random() < 0.6)
+    if focus == "conflict" and n >= 2 and rng.random() < 0.7:
+        # same basis on two channels so that they share phase references
+        chans[1]["kind"] = chans[0]["kind"]
+        if chans[1]["kind"] != "Rydberg":
+            chans[1].pop("eom", None)
     if xy:
         chans.append(
             dict(
@@ -92,8 +107,8 @@ def gen_device(rng: random.Random, xy=False):
     return dict(
         channels=chans,
         dmms=dmms,
-        max_sequence_duration=rng.choice([None, None, None, 3000, 700]),
-        reusable=rng.random() < 0.3,
+        max_sequence_duration=rng.choice([None, None, None, 3000, 700] if focus != "limits" else [None, 3000, 700, 400]),
+        reusable=rng.random() < (0.5 if focus == "typestate" else 0.3),
         slm=False,
     )
 
@@ -221,8 +236,23 @@ def chan_spec_of(obj):
     )
 
 
-def gen_ops(rng: random.Random, case, n_ops: int, invalid_rate: float, query_rate: float):
+OP_WEIGHTS = {
+    None: dict(add=45, delay=10, target=11, align=8, phase=9, eom=10, detmap=3, bad_disable=1.5, bad_addeom=1.5, mag=1),
+    "eom": dict(add=25, delay=8, target=6, align=6, phase=6, eom=40, detmap=1, bad_disable=2, bad_addeom=2, mag=0.5),
+    "conflict": dict(add=55, delay=10, target=10, align=10, phase=6, eom=5, detmap=3, bad_disable=0.5, bad_addeom=0.5, mag=0.5),
+    "local": dict(add=35, delay=8, target=35, align=5, phase=8, eom=4, detmap=1, bad_disable=0.5, bad_addeom=0.5, mag=0.5),
+    "phase": dict(add=45, delay=6, target=10, align=4, phase=28, eom=8, detmap=1, bad_disable=0.5, bad_addeom=0.5, mag=0.5),
+    "limits": dict(add=60, delay=12, target=6, align=8, phase=2, eom=6, detmap=6, bad_disable=0.5, bad_addeom=0.5, mag=0.5),
+    "typestate": dict(add=30, delay=8, target=10, align=6, phase=6, eom=14, detmap=8, bad_disable=6, bad_addeom=6, mag=5),
+}
+
+
+def gen_ops(rng: random.Random, case, n_ops: int, invalid_rate: float, query_rate: float, focus=None):
     from pulser.channels import DMM
+
+    weights = OP_WEIGHTS.get(focus, OP_WEIGHTS[None])
+    wkeys = list(weights)
+    wvals = [weights[k] for k in wkeys]
 
     dev = case["device"]
     qids = case["register"]["ids"]
@@ -364,19 +394,23 @@ def gen_ops(rng: random.Random, case, n_ops: int, invalid_rate: float, query_rat
         if local and name in live.seq._schedule and not live.has_target(name) and rng.random() < 0.8:
             emit(dict(op="target", qubits=qsubset(spec["max_targets"]), channel=name))
             continue
-        if r < 0.45:
+        kind = rng.choices(wkeys, wvals)[0]
+        if kind == "add":
             pr = rng.choice([0, 0, 0, 1, 2])
             if rng.random() < 0.015:
                 pr = 3
-            emit(dict(op="add", pulse=pulse_for(obj, big=rng.random() < 0.05), channel=name, protocol=pr))
-        elif r < 0.55:
+            big = rng.random() < (0.25 if focus == "limits" else 0.05)
+            emit(dict(op="add", pulse=pulse_for(obj, big=big), channel=name, protocol=pr))
+        elif kind == "delay":
             d = gen_duration(rng, spec)
             if rng.random() < invalid_rate:
                 d = rng.choice([0, -4, 1])
             emit(dict(op="delay", duration=d, channel=name, at_rest=rng.random() < 0.4))
-        elif r < 0.66:
+        elif kind == "target":
             if local or rng.random() < 0.08:
                 qs = qsubset(spec["max_targets"] if rng.random() > 0.08 else None)
+                if name in live.seq._schedule and live.targets(name) and rng.random() < 0.15:
+                    qs = live.targets(name)  # retarget to the same atoms
                 if rng.random() < invalid_rate * 0.4:
                     qs = qs + ["ghost"]
                 if rng.random() < 0.3:
@@ -388,7 +422,7 @@ def gen_ops(rng: random.Random, case, n_ops: int, invalid_rate: float, query_rat
                     emit(dict(op="target", qubits=qs, channel=name))
             else:
                 emit(dict(op="add", pulse=pulse_for(obj), channel=name, protocol=rng.choice([0, 1, 2])))
-        elif r < 0.74:
+        elif kind == "align":
             names = list(decl)
             if len(names) >= 2:
                 chs = rng.sample(names, rng.randint(2, min(3, len(names))))
@@ -397,7 +431,7 @@ def gen_ops(rng: random.Random, case, n_ops: int, invalid_rate: float, query_rat
             if rng.random() < invalid_rate * 0.6:
                 chs = rng.choice([chs[:1], chs + chs[:1], chs + ["zz"]])
             emit(dict(op="align", channels=chs, at_rest=rng.random() < 0.6))
-        elif r < 0.83:
+        elif kind == "phase":
             bases = list(live.seq._basis_ref) or ["digital"]
             basis = rng.choice(bases) if rng.random() > 0.08 else rng.choice(["digital", "ground-rydberg", "XY"])
             rr = rng.random()
@@ -414,7 +448,7 @@ def gen_ops(rng: random.Random, case, n_ops: int, invalid_rate: float, query_rat
                 emit(dict(op="phase_shift_index", phi=rng.choice(PHASES + [0.3]), targets=idx, basis=basis))
             else:
                 emit(dict(op="phase_shift", phi=rng.choice(PHASES + [0.3]), targets=tg, basis=basis))
-        elif r < 0.93:
+        elif kind == "eom":
             if spec["eom"] is not None or rng.random() < 0.1:
                 emit(
                     dict(
@@ -428,16 +462,16 @@ def gen_ops(rng: random.Random, case, n_ops: int, invalid_rate: float, query_rat
                 )
             else:
                 emit(dict(op="add", pulse=pulse_for(obj), channel=name, protocol=rng.choice([0, 1, 2])))
-        elif r < 0.96:
+        elif kind == "detmap":
             if dev.get("dmms") and case["maps"]:
                 k = rng.randrange(len(dev["dmms"]))
                 did = f"dmm_{k}" if rng.random() > 0.05 else "dmm_9"
                 emit(dict(op="config_detmap", map=rng.randrange(len(case["maps"])), dmm_id=did))
             else:
                 emit(dict(op="delay", duration=gen_duration(rng, spec), channel=name, at_rest=True))
-        elif r < 0.975:
+        elif kind == "bad_disable":
             emit(dict(op="disable_eom", channel=name, correct=False))
-        elif r < 0.99:
+        elif kind == "bad_addeom":
             emit(dict(op="add_eom", channel=name, duration=16, phase=0.0, post=0.0, protocol=0, correct=False))
         else:
             emit(dict(op="set_mag", bx=rng.choice([0.0, 1.0]), by=0.0, bz=rng.choice([0.0, 30.0])))
@@ -470,9 +504,16 @@ def scale_down(w, mx):
     return w
 
 
-def gen_case(rng: random.Random, n_ops=None, invalid_rate=0.12, query_rate=0.12, xy=None):
-    xy = (rng.random() < 0.1) if xy is None else xy
-    dev = gen_device(rng, xy=xy)
+FOCI = [None, "eom", "conflict", "local", "phase", "limits", "typestate"]
+
+
+def gen_case(rng: random.Random, n_ops=None, invalid_rate=0.12, query_rate=0.12, xy=None, focus=None):
+    if focus == "mix":
+        focus = rng.choice(FOCI)
+    if focus == "typestate":
+        invalid_rate = 0.3
+    xy = (rng.random() < (0.3 if focus == "typestate" else 0.1)) if xy is None else xy
+    dev = gen_device(rng, xy=xy, focus=focus)
     reg = gen_register(rng)
     n = len(reg["ids"])
     maps = []
@@ -482,5 +523,5 @@ def gen_case(rng: random.Random, n_ops=None, invalid_rate=0.12, query_rate=0.12,
             w[0] = 1.0
         maps.append(w)
     case = dict(device=dev, register=reg, maps=maps, ops=[])
-    case["ops"] = gen_ops(rng, case, n_ops or rng.randint(3, 25), invalid_rate, query_rate)
+    case["ops"] = gen_ops(rng, case, n_ops or rng.randint(3, 25), invalid_rate, query_rate, focus=focus)
     return case
